@@ -11,6 +11,7 @@ from ..result import Result
 from .c14 import FACES6, snap_cell
 
 ID = "C15"
+NO_INT_DTYPE = True     # the harness edits coefficient arrays in place with non-integral factors
 TOLERANCES = {"everything": "byte equality of snapshots; bit-identical repeated results; np.shares_memory == False"}
 RULE = ("Generated: grid (9 classes, N 1..3 / 1..2 in 3-D, all spacings) x BCs (D/N/R/periodic) x fields (phi, D, u with mixed signs "
         "and zeros, direction field, alpha/beta/gamma cell fields) x limiter.  For every public builder/solver (diffusionTerm, "
